@@ -23,7 +23,12 @@ YEARS = [1980, 1999, 2023, 2038, 2069, 2099]
 
 
 def draw_config(rng):
-    fam = rng.choice(["third", "third", "seventh", "seventh", "int", "x1001", "prime", "small", "small", "small", "slow", "big7"])
+    fam = rng.choice(["third", "third", "seventh", "seventh", "int", "x1001", "prime", "small", "small", "small", "slow", "big7", "huge"])
+    if fam == "huge":
+        # index * denominator beyond 2^64: any fixed-width intermediate in the file computation wraps
+        n, d = rng.choice([30000000000, 12000000000, 10**10 + 1, 2**33 + 7, 10**11, 24000000000]), rng.choice([1001, 1001, 3, 7, 11])
+        fc = rng.choice([1, 2, 60, 3600])
+        return n, d, fc, fc * rng.choice([1, 2, 60])
     if fam == "third":
         n, d = rng.choice([10**6, 10**7, 10, 13, 26, rng.randint(1, 10**9)]), 3
     elif fam == "seventh":
